@@ -32,6 +32,34 @@ func runC17(e *Env) {
 			ms = append(ms, f)
 		}
 	}
+	// … and whatever else the value types offer under those names ("for every type, an unmarshal or scan call"):
+	// pointer-receiver methods called Unmarshal* or Scan that return an error
+	known := map[*ssa.Function]bool{}
+	for _, m := range ms {
+		known[m] = true
+	}
+	for _, vt := range [][2]string{{"date", "Date"}, {"roman", "Number"}, {"sem", "Ver"}, {"size", "Size"}, {"uu", "ID"}} {
+		sp := e.P.ByName[vt[0]]
+		if sp == nil || sp.Type(vt[1]) == nil {
+			continue
+		}
+		mset := e.P.SSA.MethodSets.MethodSet(types.NewPointer(sp.Type(vt[1]).Type()))
+		for i := 0; i < mset.Len(); i++ {
+			name := mset.At(i).Obj().Name()
+			if !strings.HasPrefix(name, "Unmarshal") && name != "Scan" {
+				continue
+			}
+			f := e.P.SSA.MethodValue(mset.At(i))
+			if f == nil || known[f] || len(f.Blocks) == 0 || f.Signature.Recv() == nil {
+				continue
+			}
+			if _, isPtr := f.Signature.Recv().Type().(*types.Pointer); !isPtr {
+				continue
+			}
+			known[f] = true
+			ms = append(ms, f)
+		}
+	}
 	e.Flow(func(c *flow.Ctx) { c.RuleStoreThenError(ms) })
 	e.S.Floor("C17.store", 8)
 
@@ -46,8 +74,9 @@ func runC17(e *Env) {
 	if f := e.Fn("C17.ro", "sem", "DefaultComparePreRelease"); f != nil {
 		entries = append(entries, f)
 	}
-	if f := e.Method("C17.ro", "date", "Date", "UnmarshalBinary"); f != nil {
-		entries = append(entries, f)
+	// the unmarshal / scan methods receive the caller's bytes before any parser does
+	for _, m := range ms {
+		entries = append(entries, m)
 	}
 	e.Flow(func(c *flow.Ctx) { c.RuleInputReadOnly(entries...) })
 	e.S.Floor("C17.ro", 11)
